@@ -25,6 +25,13 @@ from harness import core
 from harness.core import to_dec
 
 T_GRID = [500.0, 1000.0, 1500.0]            # an arithmetic progression: also a range / arange
+# species names: a per-species scan variable is '<name>_kwargs'; the alphabet deliberately
+# includes names ending in one of the characters of '_kwargs' (and in 's', 'g', 'a', '_')
+GAS_NAMES = ['CO_gas', 'H2O_g', 'O2_gas', 'H2_gas', 'NH3(g)', 'CO', 'H2', 'G1', 'Ar', 'gas', 'args',
+             'CH4_w', 'N2_k', 'O_r', 'CO2_', 'CH3OH(gas)', 'H2 gas', 'vapours', 'NO_a', 'X2']
+REF_NAMES = ['R', 'Pt_bulk', 'vacancies', 'Pt(S)', 'slab', 'Ni_surf_a', 'Z']
+PHASE_SUFFIXES = ['fcc', 'CO(S)', 'ML_a', 'sites', 'brg', 'top_', 'ML hollow', 'PH']
+KW_CHARS = set('_kwargs')
 GRID_FORMS = ['list', 'farray', 'ilist', 'iarray', 'arange', 'range']
 INT_FORMS = ('ilist', 'iarray', 'arange', 'range')
 
@@ -136,6 +143,7 @@ def record_scan1(pd, norms, x_name, x_values, G_units, kw, k=0):
     dt['g1int'] = _int_typed(x_values)
     tab = np.asarray(tab, dtype=float)
     ev = {'ev': 'scan1', 'n': n, 'np': npts, 'k': int(k), 'units': G_units is not None,
+          'x1': str(x_name),
           'R': to_dec(c.R('%s/K' % G_units)) if G_units is not None else [1, 0],
           'T': [to_dec(t) for t in Ts], 'norm': [to_dec(v) for v in norms],
           'own': _dec_nested(own), 'tab': _dec_nested(tab.tolist()),
@@ -170,6 +178,7 @@ def record_scan2(pd, norms, x1_name, x1_values, x2_name, x2_values, G_units, kw)
     dt['g1int'], dt['g2int'] = _int_typed(x1_values), _int_typed(x2_values)
     tab = np.asarray(tab, dtype=float)
     ev = {'ev': 'scan2', 'n': n, 'np': npts, 'nq': nq, 'units': G_units is not None,
+          'x1': str(x1_name), 'x2': str(x2_name),
           'R': to_dec(c.R('%s/K' % G_units)) if G_units is not None else [1, 0],
           'T': _dec_nested(Ts), 'norm': [to_dec(v) for v in norms],
           'own': _dec_nested(own), 'tab': _dec_nested(tab.tolist()),
@@ -278,7 +287,7 @@ def _interp_coeffs(Ts, vals):
     return a
 
 
-def _table_diagram(rows_by_T, norms, slopes, lnp_unit=1.0):
+def _table_diagram(rows_by_T, norms, slopes, lnp_unit=1.0, gname='G', zname='Z'):
     """PhaseDiagram whose normalised table is rows_by_T[i][a] + slopes[i] * ln(P):
     reaction i is  Z (+ nu G) = S_i (+ nu G)  with S_i a Nasa species interpolating
     norm_i * rows_by_T[i][.] on T_GRID and G a structureless gas (G/RT = ln P)."""
@@ -286,11 +295,11 @@ def _table_diagram(rows_by_T, norms, slopes, lnp_unit=1.0):
     from pmutt.reaction import Reaction
     from pmutt.reaction.phasediagram import PhaseDiagram
     nT = len(rows_by_T[0])
-    Z = _nasa('Z', [0.0] * 7, 'S')
-    Gs = _nasa('G', [0.0] * 7, 'G')
+    Z = _nasa(zname, [0.0] * 7, 'S')
+    Gs = _nasa(gname, [0.0] * 7, 'G')
     rxns = []
     for i, row in enumerate(rows_by_T):
-        S = _nasa('S%d' % i, _interp_coeffs(T_GRID[:nT], [v * norms[i] for v in row]), 'S')
+        S = _nasa('S%d_%s' % (i, PHASE_SUFFIXES[i % len(PHASE_SUFFIXES)]), _interp_coeffs(T_GRID[:nT], [v * norms[i] for v in row]), 'S')
         nu = norms[i] * slopes[i] / lnp_unit      # nu * ln(P_b) = norm * slope * (b - 1)
         if nu > 0:
             rxns.append(Reaction(reactants=[Z], reactants_stoich=[1.0],
@@ -357,10 +366,12 @@ def _exec_two(case):
     A, c, nb, order = case['a'], case['c'], case['nb'], case['order']
     pform = case.get('p_form', 'list')
     pint = pform in INT_FORMS                      # integer pressures 1, 2, 4: ln P = (b - 1) ln 2
-    pd = _table_diagram(A, case['norms'], c, math.log(2.0) if pint else 1.0)
+    gname = case.get('gname', 'G')
+    pd = _table_diagram(A, case['norms'], c, math.log(2.0) if pint else 1.0, gname=gname,
+                        zname=case.get('zname', 'Z'))
     Ts = _typed_grid(T_GRID[:len(A[0])], case.get('t_form', 'list'))
     Ps = [2 ** b for b in range(nb)] if pint else [math.exp(b) for b in range(nb)]
-    pname = case['pvar']
+    pname = 'P' if case['pvar'] == 'P' else gname + '_kwargs'   # per-species pressure of the gas
     pvals = _typed_grid(Ps, pform) if pname == 'P' else [{'P': p} for p in Ps]
     kw = {} if pname == 'P' else {'P': 7.0}          # overridden for the gas by G_kwargs
     if order == 'TP':
@@ -481,33 +492,34 @@ def _exec_span(case):
 
 
 # ---- random real-valued phase diagrams ------------------------------------
-def _random_species(rnd, kind):
+def _random_species(rnd, kind, names=None):
     """A pool: reference surface R, gases G1, G2, candidate phases."""
     from pmutt.statmech import StatMech, presets
     sp = {}
+    nm = names or {'R': 'R', 'G1': 'G1', 'G2': 'G2'}
     if kind == 'statmech':
         from ase.build import molecule
-        sp['R'] = StatMech(name='R', potentialenergy=-380.0 - rnd.uniform(0, 5),
+        sp['R'] = StatMech(name=nm['R'], potentialenergy=-380.0 - rnd.uniform(0, 5),
                            **presets['electronic'])
-        sp['G1'] = StatMech(name='G1', atoms=molecule('CO'), potentialenergy=-14.8 + rnd.uniform(-0.2, 0.2),
+        sp['G1'] = StatMech(name=nm['G1'], atoms=molecule('CO'), potentialenergy=-14.8 + rnd.uniform(-0.2, 0.2),
                             vib_wavenumbers=[2121.2 * rnd.uniform(0.9, 1.1)], symmetrynumber=1,
                             **presets['idealgas'])
-        sp['G2'] = StatMech(name='G2', atoms=molecule('H2'), potentialenergy=-6.77 + rnd.uniform(-0.1, 0.1),
+        sp['G2'] = StatMech(name=nm['G2'], atoms=molecule('H2'), potentialenergy=-6.77 + rnd.uniform(-0.1, 0.1),
                             vib_wavenumbers=[4306.0 * rnd.uniform(0.9, 1.1)], symmetrynumber=2,
                             **presets['idealgas'])
     else:
-        sp['R'] = _nasa('R', [rnd.uniform(1, 4), rnd.uniform(-1e-3, 1e-3), 0, 0, 0,
+        sp['R'] = _nasa(nm['R'], [rnd.uniform(1, 4), rnd.uniform(-1e-3, 1e-3), 0, 0, 0,
                               rnd.uniform(-2e3, 2e3), rnd.uniform(-5, 5)], 'S')
-        sp['G1'] = _nasa('G1', [3.5 + rnd.uniform(-0.5, 1.0), rnd.uniform(0, 2e-3), rnd.uniform(-5e-7, 5e-7),
+        sp['G1'] = _nasa(nm['G1'], [3.5 + rnd.uniform(-0.5, 1.0), rnd.uniform(0, 2e-3), rnd.uniform(-5e-7, 5e-7),
                                 0, 0, rnd.uniform(-2e4, -1e3), rnd.uniform(2, 8)], 'G')
-        sp['G2'] = _nasa('G2', [3.5 + rnd.uniform(-0.5, 1.0), rnd.uniform(0, 2e-3), rnd.uniform(-5e-7, 5e-7),
+        sp['G2'] = _nasa(nm['G2'], [3.5 + rnd.uniform(-0.5, 1.0), rnd.uniform(0, 2e-3), rnd.uniform(-5e-7, 5e-7),
                                 0, 0, rnd.uniform(-2e3, 1e3), rnd.uniform(-4, 4)], 'G')
     return sp
 
 
-def _random_phase(rnd, kind, sp, i, n1, n2):
+def _random_phase(rnd, kind, sp, i, n1, n2, suffix='PH'):
     from pmutt.statmech import StatMech, presets
-    name = 'PH%d' % i
+    name = '%d %s' % (i, suffix)
     if kind == 'statmech':
         e = (sp['R'].elec_model.potentialenergy
              + n1 * (sp['G1'].elec_model.potentialenergy - rnd.uniform(0.6, 2.0))
@@ -559,8 +571,13 @@ def _exec_rpd(case):
     from pmutt.reaction.phasediagram import PhaseDiagram
     rnd = random.Random(case['seed'])
     kind = case['species']
-    sp = _random_species(rnd, kind)
+    names = case.get('names') or {'R': 'R', 'G1': 'G1', 'G2': 'G2'}
+    sp = _random_species(rnd, kind, names)
     n = case['n']
+
+    def var(v):                 # 'G1_kwargs' -> '<name of gas 1>_kwargs'
+        return names[v[:-7]] + '_kwargs' if v.endswith('_kwargs') else v
+
     rxns, stoich = [], []
     for i in range(n):
         if i == 0 and rnd.random() < 0.5:
@@ -572,7 +589,8 @@ def _exec_rpd(case):
             n2 = rnd.choice([0.0, 0.0, 0.5, 1.0, 2.0])
             if n1 == 0.0 and n2 == 0.0:
                 n1 = 1.0
-            ph = _random_phase(rnd, kind, sp, i, n1, n2)
+            ph = _random_phase(rnd, kind, sp, i, n1, n2,
+                               PHASE_SUFFIXES[(i + case['seed']) % len(PHASE_SUFFIXES)] if case.get('names') else 'PH')
             reac, rst = [sp['R']], [1.0]
             if n1:
                 reac.append(sp['G1'])
@@ -598,17 +616,17 @@ def _exec_rpd(case):
     pd = PhaseDiagram(reactions=rxns, norm_factors=arg)
     units = case['units']
     fixed = {'T': rnd.uniform(300.0, 1200.0), 'P': 10.0 ** rnd.uniform(-4.0, 1.0),
-             'G1_kwargs': {'P': 10.0 ** rnd.uniform(-5.0, 1.0)},
-             'G2_kwargs': {'P': 10.0 ** rnd.uniform(-5.0, 1.0)}}
+             var('G1_kwargs'): {'P': 10.0 ** rnd.uniform(-5.0, 1.0)},
+             var('G2_kwargs'): {'P': 10.0 ** rnd.uniform(-5.0, 1.0)}}
     events = []
-    v1 = case['x1']
+    v1 = var(case['x1'])
     g1 = _grid(rnd, v1, case['m1'], case.get('f1', 'list'))
     if case['dim'] == 1:
         kw = {k: v for k, v in fixed.items() if k != v1 and (k in ('T', 'P') or rnd.random() < 0.4)}
         ev, _ = record_scan1(pd, norms, v1, g1, units, kw)
         events.append(ev)
     else:
-        v2 = case['x2']
+        v2 = var(case['x2'])
         g2 = _grid(rnd, v2, case['m2'], case.get('f2', 'list'))
         kw = {k: v for k, v in fixed.items()
               if k not in (v1, v2) and (k in ('T', 'P') or rnd.random() < 0.4)}
@@ -735,7 +753,8 @@ def _tlc_cases(ctx, rnd):
                       't': c['t'], 'acc': c['acc'],
                       'norms': [rnd.choice(EXACT_NORMS) for _ in range(n)],
                       'units': rnd.choice([None, None, 'kJ/mol', 'eV']),
-                      'pvar': rnd.choice(['P', 'G_kwargs']),
+                      'pvar': rnd.choice(['P', 'G_kwargs', 'G_kwargs']),
+                      'gname': rnd.choice(GAS_NAMES), 'zname': rnd.choice(REF_NAMES),
                       't_form': rnd.choice(GRID_FORMS), 'p_form': rnd.choice(GRID_FORMS)})
     for c in seq:
         cases.append({'kind': 'seq', 'steps': c['steps'], 'states': c['states'], 'spans': c['spans'],
@@ -765,7 +784,9 @@ def _random_cases(ctx, rnd):
                     m2 = rnd.randint(1, 4)
         x1 = rnd.choice(['T', 'T', 'P', 'G1_kwargs', 'G2_kwargs'])
         x2 = rnd.choice([v for v in ['T', 'P', 'G1_kwargs', 'G2_kwargs'] if v != x1])
+        gn = rnd.sample(GAS_NAMES, 2)
         cases.append({'kind': 'rpd', 'seed': rnd.randrange(1 << 30), 'dim': dim,
+                      'names': {'R': rnd.choice(REF_NAMES), 'G1': gn[0], 'G2': gn[1]},
                       'species': rnd.choice(['statmech', 'nasa']),
                       'n': rnd.randint(1, 8), 'm1': m1, 'm2': m2, 'x1': x1, 'x2': x2,
                       'norm_mode': rnd.choice(['none', 'coverage', 'positive', 'signed', 'signed']),
@@ -860,7 +881,9 @@ def run(ctx):
            'span_highest_before_lowest': 0, 'span_highest_after_lowest': 0,
            'span_noncontiguous': 0, 'span_noncontiguous_later_reactant_extreme': 0,
            'scan2_integer_typed_first_grid': 0, 'scan2_integer_typed_second_grid': 0,
-           'scan1_integer_typed_grid': 0}
+           'scan1_integer_typed_grid': 0,
+           'scans_over_per_species_variable': 0,
+           'scans_over_per_species_variable_name_ending_in_kwargs_chars': 0}
 
     def flat(x):
         return [z for y in x for z in flat(y)] if isinstance(x, list) else [x]
@@ -887,6 +910,11 @@ def run(ctx):
                     cov['span_highest_after_lowest'] += 1
             else:
                 cov[e['ev']] += 1
+                for xn, m in ((e.get('x1', ''), e['np']), (e.get('x2', ''), e.get('nq', 0))):
+                    if xn.endswith('_kwargs'):
+                        cov['scans_over_per_species_variable'] += 1
+                        if m >= 2 and xn[:-7][-1:] in KW_CHARS:
+                            cov['scans_over_per_species_variable_name_ending_in_kwargs_chars'] += 1
                 if e['ev'] == 'scan2':
                     cov['scan2_integer_typed_first_grid'] += 1 if e.get('g1int') else 0
                     cov['scan2_integer_typed_second_grid'] += 1 if e.get('g2int') else 0
